@@ -1047,10 +1047,85 @@ pub fn oneshot_main() {
     use std::io::Read;
     std::io::stdin().read_to_string(&mut input).expect("stdin");
     let v: serde_json::Value = serde_json::from_str(&input).expect("json");
+    if let Some(which) = v.get("custom_c06").and_then(|x| x.as_u64()) {
+        let (msg, n) = crate::statics::failing_drop_waits_model(which as usize);
+        println!("{}", json!({"message": msg, "second_model_iterations": n}));
+        return;
+    }
     let p: Program = serde_json::from_value(v["program"].clone()).expect("program");
     let cfg: subject::Cfg = serde_json::from_value(v["cfg"].clone()).expect("cfg");
     let r = seq_report(&p, &cfg);
     println!("{}", serde_json::to_string(&r).unwrap());
+}
+
+/// Run `vmc oneshot` on `input` in a child process with a watchdog: Ok(stdout), or Err("hang") /
+/// Err("died: ...").
+fn oneshot_with_watchdog(input: &serde_json::Value, secs: u64) -> Result<Vec<u8>, String> {
+    use std::io::{Read, Write};
+    let exe = std::env::current_exe().map_err(|e| e.to_string())?;
+    let mut child = std::process::Command::new(exe)
+        .arg("oneshot")
+        .env_remove("RUST_BACKTRACE")
+        .stdin(std::process::Stdio::piped())
+        .stdout(std::process::Stdio::piped())
+        .stderr(std::process::Stdio::null())
+        .spawn()
+        .map_err(|e| e.to_string())?;
+    child.stdin.take().unwrap().write_all(input.to_string().as_bytes()).map_err(|e| e.to_string())?;
+    let t0 = std::time::Instant::now();
+    loop {
+        match child.try_wait().map_err(|e| e.to_string())? {
+            Some(st) => {
+                let mut out = vec![];
+                if let Some(mut o) = child.stdout.take() {
+                    let _ = o.read_to_end(&mut out);
+                }
+                return if st.success() { Ok(out) } else { Err(format!("died: {}", st)) };
+            }
+            None => {
+                if t0.elapsed().as_secs() >= secs {
+                    let _ = child.kill();
+                    let _ = child.wait();
+                    return Err("hang".into());
+                }
+                std::thread::sleep(std::time::Duration::from_millis(20));
+            }
+        }
+    }
+}
+
+/// C06, hand-written models (statics.rs): a destructor that runs while the failing thread unwinds
+/// waits for another thread. Run in a child process under a watchdog.
+fn eval_c06_custom(job: &Job) -> JobResult {
+    let mut res = JobResult::default();
+    let which = job.extra["which"].as_u64().unwrap_or(0);
+    res.nontrivial = true;
+    res.states = 1;
+    res.transitions = 1;
+    let want = format!("VMC custom failure {}", which);
+    match oneshot_with_watchdog(&json!({"custom_c06": which}), 12) {
+        Ok(out) => {
+            let v: serde_json::Value = serde_json::from_slice(&out).unwrap_or(json!({}));
+            let msg = v["message"].as_str().unwrap_or("").to_string();
+            let n2 = v["second_model_iterations"].as_u64().unwrap_or(0);
+            res.verdict = "User".into();
+            res.loom_iterations = n2;
+            res.sample = json!({"mode": "custom", "model": which, "message": msg, "second_model_iterations": n2});
+            if !msg.contains(&want) {
+                res.violations.push(viol("wrong_failure", format!("custom model {}", which), format!("the model unwinds with `{}`", want), msg, json!({})));
+            } else if n2 < 2 {
+                res.violations.push(viol("next_model_not_clean", format!("custom model {}", which), "a later model run explores both orders of two RMWs".into(), format!("{} iterations", n2), json!({})));
+            } else {
+                res.traces_validated += 1;
+            }
+        }
+        Err(e) => {
+            res.verdict = e.clone();
+            let kind = if e == "hang" { "hang" } else { "aborted" };
+            res.violations.push(viol(kind, format!("custom model {}", which), format!("the model unwinds with `{}` and a later model runs", want), e, json!({})));
+        }
+    }
+    res
 }
 
 fn first_diff(a: &[String], b: &[String]) -> String {
@@ -1602,6 +1677,61 @@ fn eval_c19(job: &Job) -> JobResult {
         }
     }
 
+    // (a3) skip_branch() while exploration is already off: inside a stop/explore region
+    // (stop@i, skip@s, explore@j with i <= s <= j) and before the explicit explore() of
+    // expect_explicit_explore. The skip latches: the later explore() must not switch exploration
+    // back on. Checked through the expected flags (run_ctl) and the subset relation.
+    for t in 1..k.min(3) {
+        let hi = p.threads[t].len();
+        for i in 0..=hi {
+            for sk in i..=hi {
+                for j in sk..=hi {
+                    let q = crate::families::insert_op(p, t, j, K::Explore.into());
+                    let q = crate::families::insert_op(&q, t, sk, K::SkipBranch.into());
+                    let q = crate::families::insert_op(&q, t, i, K::StopExploring.into());
+                    let (s2, r2) = run_ctl(&q, &cfg);
+                    variants += 1;
+                    res.loom_iterations += r2.iters;
+                    let name = format!("T{} stop@{} skip@{} explore@{}", t, i, sk, j);
+                    if s2.verdict != Verdict::Ok {
+                        push(&mut res, "control_verdict", name.clone(), "Ok", s2.verdict.short());
+                        continue;
+                    }
+                    if let Some(v) = &r2.viol {
+                        push(&mut res, "explored_inside_region", name.clone(), "skip_branch() latches: a later explore() does not switch exploration back on", v.clone());
+                    }
+                    let dropped = vec![(t, i), (t, sk + 1), (t, j + 2)];
+                    for o in r2.outcomes.iter().map(|o| project(o, &dropped)) {
+                        if !full.outcomes.contains(&o) {
+                            push(&mut res, "restricted_not_subset", format!("{} {}", name, fmt_outcome(&o)), "subset of the unrestricted result set", "extra outcome".into());
+                        }
+                    }
+                    res.traces_validated += r2.iters;
+                }
+            }
+        }
+        for sk in 0..=hi {
+            for j in sk..=hi {
+                let q = crate::families::insert_op(p, t, j, K::Explore.into());
+                let q = crate::families::insert_op(&q, t, sk, K::SkipBranch.into());
+                let mut c2 = cfg.clone();
+                c2.expect_explicit_explore = true;
+                let (s2, r2) = run_ctl(&q, &c2);
+                variants += 1;
+                res.loom_iterations += r2.iters;
+                let name = format!("T{} explicit skip@{} explore@{}", t, sk, j);
+                if s2.verdict != Verdict::Ok {
+                    push(&mut res, "control_verdict", name.clone(), "Ok", s2.verdict.short());
+                    continue;
+                }
+                if let Some(v) = &r2.viol {
+                    push(&mut res, "explored_inside_region", name.clone(), "skip_branch() latches: a later explore() does not switch exploration back on", v.clone());
+                }
+                res.traces_validated += r2.iters;
+            }
+        }
+    }
+
     // (b) every max_branches from 1 to one above the exact need (whichever kind of decision -
     // schedule, load, spurious - is the one that crosses the limit)
     for (mb, want_ok) in (1..=b + 1).map(|mb| (mb, mb >= b)) {
@@ -1750,6 +1880,9 @@ fn eval_c06_limits(job: &Job) -> JobResult {
 fn eval_c06(job: &Job) -> JobResult {
     if job.extra.get("mode").and_then(|v| v.as_str()) == Some("limits") {
         return eval_c06_limits(job);
+    }
+    if job.extra.get("mode").and_then(|v| v.as_str()) == Some("custom") {
+        return eval_c06_custom(job);
     }
     let p = &job.program;
     let mut res = JobResult::default();
